@@ -120,6 +120,31 @@ def gen_program(seed):
         m, fa, fb = ident(r, used), ident(r, used), ident(r, used)
         out.append(f"mod {m} {{\n  pub fn {fa}(x) {{\n    x + 1.0\n  }}\n  pub fn {fb}(x) {{\n    x * 2.0\n  }}\n}}")
         calls.append(f"{m}::{fb}(2.0) + {m}::{fa}(3.0)")
+    if r.random() < 0.45:  # AMBIGUOUS imports: several wildcard-imported modules export one public name (the first `use` in source
+        # order must win, compilation after compilation: seeded C15c resolved through a HashSet of import bases), optionally with a
+        # third candidate that a single-name `use` or a multi-import brings in, and a private namesake that must be skipped
+        nm = r.randint(2, 4)
+        mods = [ident(r, used) for _ in range(nm)]
+        shared = [ident(r, used) for _ in range(r.randint(1, 2))]
+        for i, m in enumerate(mods):
+            members = []
+            for j, f in enumerate(shared):
+                vis = "pub " if not (nm > 2 and i == 0 and j == 0 and r.random() < 0.3) else ""
+                members.append(f"  {vis}fn {f}(x) {{\n    x * {10 ** i}.0 + {j + 1}.0\n  }}")
+            own = ident(r, used)
+            members.append(f"  pub fn {own}(x) {{\n    x + {i + 1}.0\n  }}")
+            out.append(f"mod {m} {{\n" + "\n".join(members) + "\n}")
+        order = mods[:]
+        r.shuffle(order)
+        style = r.randrange(3)
+        for k, m in enumerate(order):
+            if style == 1 and k == len(order) - 1:
+                out.append(f"use {m}::{{{', '.join(shared)}}}")
+            elif style == 2 and k == 0 and len(shared) > 1:
+                out.append(f"use {m}::{shared[1]}")
+            else:
+                out.append(f"use {m}::*")
+        calls.append(" + ".join(f"{f}({r.randint(1, 9)}.0) * {100 ** j}.0" for j, f in enumerate(shared)))
     if r.random() < 0.15:  # a type error whose message prints a record type
         fs = [ident(r, used) for _ in range(r.randint(2, 3))]
         rv = ident(r, used)
